@@ -30,6 +30,9 @@ type Exec struct {
 	specDepth int
 	views    map[string]PtrV // array-field views: view ref symbol -> the field they snapshot
 	curState *State
+	curFrame *Frame
+	recoveredArg *Term // recover() value handed to a deferred call applied by contract
+	topRecovered *Term // for a function verified on its own: the symbolic value recover() returns
 }
 
 type effects struct {
@@ -63,7 +66,15 @@ type Frame struct {
 	order      []*ssa.BasicBlock
 	loopHdrSt  map[*ssa.BasicBlock]*loopRun
 	panics     []panicExit
-	defers     []*ssa.Defer
+	defers     []deferred
+	newReach   *Term
+	recovered  *Term // value recover() yields inside this activation (deferred call during panicking)
+}
+
+type deferred struct {
+	call *ssa.CallCommon
+	args []Val
+	pos  token.Pos
 }
 
 type panicExit struct {
@@ -86,9 +97,12 @@ type loopInfo struct {
 }
 
 type loopRun struct {
-	measure Term
-	hasMeas bool
-	st      *State // state at header after havoc (for idx etc.)
+	measure  Term
+	hasMeas  bool
+	st       *State // state at header after havoc (for idx etc.)
+	fresh    bool   // loop declared "writes fresh"
+	invRoots map[string][]Term
+	li       *loopInfo
 }
 
 func (ex *Exec) where(pos token.Pos) string { return ex.prog.position(pos) }
@@ -252,6 +266,90 @@ func (ex *Exec) runBody(fr *Frame, st *State, reach Term) {
 	}
 	fr.entry = st.clone()
 	ex.runBlocks(fr, fr.order, st, reach, nil)
+	if len(fr.defers) > 0 {
+		ex.unwind(fr)
+	}
+}
+
+// runDeferred applies a deferred call through the callee's contract. recovered is the in-flight panic value (nil on normal exit).
+// It returns the condition under which the deferred function re-raises (False when it cannot).
+func (ex *Exec) runDeferred(fr *Frame, d deferred, st *State, reach Term, recovered *Term) Term {
+	fn, ok := d.call.Value.(*ssa.Function)
+	if !ok {
+		panic(unsupported("deferred call of a non-static function in %s", fr.fn))
+	}
+	c := ex.prog.Contracts.Funcs[fn.String()]
+	if c == nil {
+		panic(unsupported("deferred function %s needs a contract", fn))
+	}
+	var names []string
+	for _, p := range fn.Params {
+		names = append(names, p.Name())
+	}
+	rec := NilIface
+	if recovered != nil {
+		rec = *recovered
+	}
+	save := ex.recoveredArg
+	ex.recoveredArg = &rec
+	defer func() { ex.recoveredArg = save }()
+	reraise := False
+	if len(c.Panics) > 0 {
+		vars := map[string]Val{}
+		for i, n := range names {
+			vars[n] = d.args[i]
+		}
+		env := &SpecEnv{vars: vars, st: st, lst: st, pkg: fn.Pkg.Pkg, topOld: st.top}
+		env.old = env
+		var conds []Term
+		for _, pc := range c.Panics {
+			conds = append(conds, ex.evalBool(pc.E, env))
+		}
+		reraise = ex.vc.define("reraise", Or(conds...))
+	}
+	cont := And(reach, Not(reraise))
+	ex.applyContract(fr, c, names, d.args, fn.Signature, fn.Pkg, st, cont, d.pos, shortFuncName(fn))
+	return reraise
+}
+
+// unwind runs the deferred calls for every panicking exit of the frame. A deferred function whose contract
+// says `recovers` turns the panic into a normal return through the function's recover block.
+func (ex *Exec) unwind(fr *Frame) {
+	exits := fr.panics
+	fr.panics = nil
+	for _, p := range exits {
+		st := p.st.clone()
+		cond := p.cond
+		val := ex.scalar(p.val)
+		recoveredAll := False
+		for i := len(fr.defers) - 1; i >= 0; i-- {
+			d := fr.defers[i]
+			fn, _ := d.call.Value.(*ssa.Function)
+			var c *Contract
+			if fn != nil {
+				c = ex.prog.Contracts.Funcs[fn.String()]
+			}
+			reraise := ex.runDeferred(fr, d, st, cond, &val)
+			if c != nil && c.Recovers {
+				// the panic continues only where the deferred function re-raised it
+				recoveredAll = ex.vc.define("recovered", And(cond, Not(reraise)))
+				cond = ex.vc.define("stillpanicking", And(cond, reraise))
+			}
+		}
+		if !cond.IsFalse() {
+			fr.panics = append(fr.panics, panicExit{cond, p.val, st, p.where, p.text})
+		}
+		if !recoveredAll.IsFalse() && fr.fn.Recover != nil {
+			// resume in the recover block: it loads the named results and returns
+			rb := fr.fn.Recover
+			fr.curBlock = rb
+			fr.blockReach[rb.Index] = recoveredAll
+			saveDefers := fr.defers
+			fr.defers = nil
+			ex.runBlock(fr, rb, st.clone(), recoveredAll)
+			fr.defers = saveDefers
+		}
+	}
 }
 
 // runBlocks executes the given blocks (topologically ordered). When only is
@@ -391,6 +489,7 @@ func (ex *Exec) enterLoop(fr *Frame, li *loopInfo, states []*State, conds []Term
 	newTop := ex.vc.fresh("top", SInt)
 	ex.vc.assume(Ge(newTop, pre.top))
 	topPre := pre.top
+	invRoots := map[string][]Term{}
 	st.top = newTop
 	if eff.all {
 		ex.bump(st, nil, nil)
@@ -401,17 +500,24 @@ func (ex *Exec) enterLoop(fr *Frame, li *loopInfo, states []*State, conds []Term
 		}
 		ex.bump(st, names, func(name string, old, nh Term) Term {
 			var excl []Term
+			limit := topPre
 			for _, r := range eff.heaps[name] {
 				if eff.freshSym[r.S] {
 					continue // allocated inside the loop: >= topPre
 				}
 				if maxSymNum(r.S) > watermark {
+					if ls.WritesFresh {
+						// declared (and checked at every write): such roots were allocated after function entry
+						limit = fr.entry.top
+						continue
+					}
 					return True // root varies between iterations: no frame
 				}
 				excl = append(excl, r)
 			}
+			invRoots[name] = excl
 			rv := Var("r?", SInt)
-			guard := []Term{Lt(rv, topPre)}
+			guard := []Term{Lt(rv, limit)}
 			seen := map[string]bool{}
 			for _, r := range excl {
 				if !seen[r.S] {
@@ -423,7 +529,7 @@ func (ex *Exec) enterLoop(fr *Frame, li *loopInfo, states []*State, conds []Term
 		})
 	}
 	// 4. assume the invariants in the havocked state
-	lr := &loopRun{st: st}
+	lr := &loopRun{st: st, fresh: ls.WritesFresh, invRoots: invRoots, li: li}
 	fr.loopHdrSt[h] = lr
 	for _, inv := range ls.Invariants {
 		env := ex.loopEnv(fr, li, st)
@@ -534,6 +640,30 @@ func (ex *Exec) dryRunLoop(fr *Frame, li *loopInfo, st *State, reach Term) *effe
 func (ex *Exec) noteWrite(name string, root Term) {
 	if ex.track != nil {
 		ex.track.heaps[name] = append(ex.track.heaps[name], root)
+		return
+	}
+	ex.checkFreshWrite(name, root)
+}
+
+// checkFreshWrite: inside a loop declared "writes fresh", every heap write must target an object
+// allocated after function entry or one of the loop-invariant roots the frame already excludes.
+func (ex *Exec) checkFreshWrite(name string, root Term) {
+	fr := ex.curFrame
+	if fr == nil || fr.curBlock == nil {
+		return
+	}
+	for h, lr := range fr.loopHdrSt {
+		if lr == nil || !lr.fresh || lr.li == nil || !lr.li.body[fr.curBlock.Index] || h == nil {
+			continue
+		}
+		alts := []Term{Ge(root, fr.entry.top)}
+		for _, r := range lr.invRoots[name] {
+			alts = append(alts, Eq(root, r))
+		}
+		reach := fr.blockReach[fr.curBlock.Index]
+		o := ex.vc.oblige("frame", fr.name(fmt.Sprintf("loop%d.writes-fresh:%s", lr.li.ord, heapDisplay(name))), reach, Or(alts...), "")
+		o.Descr = "heap write inside a loop declared 'writes fresh' targets an object allocated after function entry"
+		ex.vc.assume(Implies(reach, Or(alts...)))
 	}
 }
 
@@ -541,9 +671,17 @@ func (ex *Exec) noteWrite(name string, root Term) {
 
 func (ex *Exec) runBlock(fr *Frame, b *ssa.BasicBlock, st *State, reach Term) {
 	ex.curState = st
+	saveFrame := ex.curFrame
+	ex.curFrame = fr
+	defer func() { ex.curFrame = saveFrame }()
 	for _, in := range b.Instrs {
 		ex.curState = st
+		fr.newReach = nil
 		ex.instr(fr, b, in, st, reach)
+		if fr.newReach != nil {
+			// a call that may leave by a panic: the rest of the block runs only when it returned
+			reach = ex.nameReach(fr, b, *fr.newReach)
+		}
 	}
 }
 
@@ -670,11 +808,19 @@ func (ex *Exec) instr(fr *Frame, b *ssa.BasicBlock, in ssa.Instruction, st *Stat
 	case *ssa.Next:
 		fr.regs[x] = ex.next(fr, x, st, reach)
 	case *ssa.RunDefers:
-		if len(fr.defers) > 0 {
-			panic(unsupported("defer in %s", fr.fn))
+		// normal exit: deferred calls run with recover() == nil
+		for i := len(fr.defers) - 1; i >= 0; i-- {
+			ex.runDeferred(fr, fr.defers[i], st, reach, nil)
 		}
 	case *ssa.Defer:
-		panic(unsupported("defer in %s", fr.fn))
+		if b.Index != 0 {
+			panic(unsupported("conditional defer in %s", fr.fn))
+		}
+		d := deferred{call: &x.Call, pos: x.Pos()}
+		for _, a := range x.Call.Args {
+			d.args = append(d.args, ex.get(fr, a, st))
+		}
+		fr.defers = append(fr.defers, d)
 	case *ssa.If:
 		c := ex.scalar(ex.get(fr, x.Cond, st))
 		c = ex.vc.define("c", c)
@@ -714,7 +860,7 @@ func (ex *Exec) edgeCond(reach, c Term) Term {
 }
 
 func (ex *Exec) storeTracked(p PtrV, v Val, st *State) {
-	if ex.track != nil && p.Kind != rootLocal {
+	if p.Kind != rootLocal {
 		ex.noteStore(p)
 	}
 	ex.store(p, v, st)
